@@ -35,7 +35,7 @@ def make_psds(seed, lead, D, tk, nk):
     Pxx = np.zeros(lead + (D, D), complex)
     Pnn = np.zeros(lead + (D, D), complex)
     steer = np.zeros(lead + (D,), complex)
-    cond = {'identity': 1.0, 'cond1e3': 1e3, 'cond1e6': 1e6}[nk]
+    cond = {'identity': 1.0, 'cond1e3': 1e3, 'cond1e6': 1e6, 'diag': 8.0}[nk]
     for idx in np.ndindex(*lead):
         r = A.rng(seed, 'c12', idx, D, tk)
         a = A.cnormal(r, (D,)) * np.sqrt(2)
@@ -63,6 +63,10 @@ def make_psds(seed, lead, D, tk, nk):
             Pxx[idx] = np.outer(a, a.conj())
         else:
             Pxx[idx] = A.hpd(seed, D, 50.0, 'c12x', idx) * 3 + np.outer(a, a.conj())
+        if nk == 'diag':
+            # exactly diagonal noise with unequal sensor powers
+            Pnn[idx] = np.diag(np.linspace(1.0, 8.0, D)[::-1 if sum(idx) % 2 else 1]) * (1 + 0.5 * sum(idx))
+            continue
         Pnn[idx] = np.eye(D) * (1 + 0.5 * sum(idx)) if nk == 'identity' else \
             A.hpd(seed, D, cond, 'c12n', idx) * (1 + 0.5 * sum(idx))
     if tk == 'real_full':
@@ -263,7 +267,7 @@ def subchecks(tier, seed):
             for D in (2, 3, 5, 8):
                 for lead in leads:
                     for tk in ('rank1', 'rank2', 'full', 'real_full', 'diag_up', 'axis_rank1'):
-                        for nk in ('identity', 'cond1e3', 'cond1e6'):
+                        for nk in ('identity', 'cond1e3', 'cond1e6', 'diag'):
                             for use_eig in (False, True):
                                 for layout in ('c_readonly', 'fortran') + (('lead_transposed',) if len(lead) >= 2 else ()):
                                     yield (D, lead, tk, nk, use_eig, layout, seed)
